@@ -214,3 +214,105 @@ theorem fitBind_positional (hasBases : Bool) (ps₁ ps₂ : List String) (hsig :
     rfl
 
 end QV.CallForm
+
+/-! ### the `deprecated_kwarg` alias layer -/
+namespace QV.CallForm
+variable {V : Type}
+
+theorem kwLookup_eraseKey (kw : List (String × V)) (a p : String) :
+    kwLookup (eraseKey kw a) p = if p = a then none else kwLookup kw p := by
+  induction kw with
+  | nil => simp [eraseKey, kwLookup]
+  | cons e kw ih =>
+    obtain ⟨q, v⟩ := e
+    unfold eraseKey at ih ⊢
+    rw [List.filter_cons]
+    by_cases hq : q = a
+    · have hb : ((q, v).1 != a) = false := by simp [hq]
+      rw [hb]
+      simp only [Bool.false_eq_true, if_false]
+      rw [ih]
+      by_cases hp : p = a
+      · simp [hp]
+      · have : ¬ q = p := fun h => hp (h ▸ hq)
+        simp [kwLookup, hp, this]
+    · have hb : ((q, v).1 != a) = true := by simp [hq]
+      rw [hb]
+      simp only [if_true, kwLookup]
+      rw [ih]
+      by_cases hqp : q = p
+      · subst hqp; simp [hq]
+      · simp [hqp]
+
+/-- a step refuses exactly when the call gives both the deprecated and the new name -/
+theorem renameStep_both (kw : List (String × V)) (a t : String) (v w : V)
+    (ha : kwLookup kw a = some v) (ht : kwLookup kw t = some w) : renameStep kw a t = .error .TypeError := by
+  simp only [renameStep, ha, ht]
+
+/-- a step without the deprecated name changes nothing -/
+theorem renameStep_absent (kw : List (String × V)) (a t : String) (ha : kwLookup kw a = none) :
+    renameStep kw a t = .ok kw := by
+  simp only [renameStep, ha]
+
+/-- a step with the deprecated name alone moves its value to the new name and leaves every other name as it was -/
+theorem renameStep_moves (kw : List (String × V)) (a t : String) (hat : a ≠ t) (v : V)
+    (ha : kwLookup kw a = some v) (ht : kwLookup kw t = none) :
+    ∃ kw', renameStep kw a t = .ok kw' ∧
+      ∀ p, kwLookup kw' p = if p = a then none else if p = t then some v else kwLookup kw p := by
+  refine ⟨eraseKey kw a ++ [(t, v)], by simp only [renameStep, ha, ht], fun p => ?_⟩
+  rw [kwLookup_append, kwLookup_eraseKey]
+  by_cases hpa : p = a
+  · subst hpa
+    have : ¬ t = p := fun h => hat h.symm
+    simp [kwLookup, this]
+  · by_cases hpt : p = t
+    · subst hpt; simp [hpa, ht, kwLookup]
+    · have : ¬ t = p := fun h => hpt h.symm
+      simp only [hpa, hpt, if_false, kwLookup, this]
+      cases kwLookup kw p <;> rfl
+
+/-- every refusal of the binding is a `TypeError` -/
+theorem bindParams_error_TypeError (dflt : String → Option V) (kw : List (String × V)) (ps : List String) (vs : List V)
+    (e : PyErr) (h : bindParams dflt kw ps vs = .error e) : e = .TypeError := by
+  induction ps generalizing vs with
+  | nil =>
+    cases vs with
+    | nil => simp [bindParams] at h
+    | cons v vs => simp only [bindParams, Except.error.injEq] at h; exact h.symm
+  | cons p ps ih =>
+    cases vs with
+    | nil =>
+      simp only [bindParams] at h
+      cases hd : kwOrDefault dflt kw p with
+      | none => simp only [hd, Except.error.injEq] at h; exact h.symm
+      | some v =>
+        cases hr : bindParams dflt kw ps [] with
+        | error e' => simp only [hd, hr, Except.error.injEq] at h; subst h; exact ih [] hr
+        | ok r => simp [hd, hr] at h
+    | cons v vs =>
+      simp only [bindParams] at h
+      cases hk : kwLookup kw p with
+      | some w => simp only [hk, Except.error.injEq] at h; exact h.symm
+      | none =>
+        cases hr : bindParams dflt kw ps vs with
+        | error e' => simp only [hk, hr, Except.error.injEq] at h; subst h; exact ih vs hr
+        | ok r => simp [hk, hr] at h
+
+/-- a keyword naming a parameter that is also filled positionally is refused ("got multiple values for argument") -/
+theorem bindParams_shadow (dflt : String → Option V) (kw : List (String × V)) (ps₁ : List String) (p : String)
+    (ps₂ : List String) (vs : List V) (hlen : ps₁.length < vs.length) (w : V) (hk : kwLookup kw p = some w) :
+    bindParams dflt kw (ps₁ ++ p :: ps₂) vs = .error .TypeError := by
+  induction ps₁ generalizing vs with
+  | nil =>
+    cases vs with
+    | nil => simp at hlen
+    | cons v vs => simp only [List.nil_append, bindParams, hk]
+  | cons q ps₁ ih =>
+    cases vs with
+    | nil => simp at hlen
+    | cons v vs =>
+      have := ih vs (by simpa using hlen)
+      simp only [List.cons_append, bindParams, this]
+      cases kwLookup kw q <;> rfl
+
+end QV.CallForm
